@@ -70,15 +70,20 @@ def ndarray2utpm(A):
     from .globalfuncs import zeros
     shp = numpy.shape(A)
     A = numpy.ravel(A)
-    proto = A[0]
+    # the prototype is the first polynomial, wherever it stands ([1., x] as well as [x, 1.])
+    proto = ([a for a in A if isinstance(a, algopy.UTPM)] + [A[0]])[0]
     dtype = numpy.result_type(*[a.data.dtype for a in A if isinstance(a, algopy.UTPM)] + [float])
     if isinstance(proto, algopy.UTPM) and proto.data.dtype != dtype and dtype.kind in 'fc':
         # the elements have different dtypes (real and complex): the common one
         proto = proto.__class__(proto.data.astype(dtype))
-    retval = zeros(shp,dtype=proto)
+    # elements of an object array may be array-valued themselves
+    eshp = proto.shape if isinstance(proto, algopy.UTPM) else ()
+    retval = zeros(shp + eshp,dtype=proto)
 
+    # (filled through a view with one leading axis: the container may have any number of axes)
+    flat = retval.reshape((len(A),) + eshp)
     for na, a in enumerate(A):
-        retval[na] = a
+        flat[na] = a
 
     return retval
 
